@@ -12,7 +12,7 @@ from .common import COQ
 
 MODEL_CELLS = True
 SHARD = 30
-STATIC_X = ["C06/XEval.v", "C06/SrcEnc.v", "C06/SrcEncProofs.v", "C06/TplEncX.v"]
+STATIC_X = ["C06/XEval.v", "C06/SrcEnc.v", "C06/SrcHolds.v", "C06/SrcEncProofs.v", "C06/PreCopy.v", "C06/TplEncX.v", "C06/LeafSem.v"]
 GEN_X = ["C06/GenTplEncXL.v", "C06/GenTplEncXV.v"]
 TIE_X = ["C06/TieEncX.v", "C06/PropsC06X.v"]
 DEPS = ["C06/Abi.v", "C06/AbiLemmas.v", "C06/Roundtrip.v", "C06/ZeroPad.v", "C06/Venc.v", "C06/VencProofs.v", "C06/Sexp.v",
@@ -73,11 +73,12 @@ def run_templates(ctx, report):
             ct = A.coq_ty(t)
             cells = [f"{runner} (snd (nth {i} {table} (TBool, SI 0))) {ct} {A.coq_val(t, v)}" for v in vals]
             if MODEL_CELLS and table in ("obs_enc_l_sto", "obs_enc_l_cd"):
-                cells += [f"model_agrees_{table[-3:].strip('_')} (snd (nth {i} {table} (TBool, SI 0))) {ct} {A.coq_val(t, v)}"
-                          for v in vals]
+                loc = table[-3:].strip('_')
+                cells += [f"model_agrees_{loc} (snd (nth {i} {table} (TBool, SI 0))) {ct} {A.coq_val(t, v)}" for v in vals]
+                cells += [f"premise_{loc} {ct} {A.coq_val(t, v)}" for v in vals]
             exprs.append("[" + "; ".join(cells) + "]")
             meta.append((table, t, vals))
-    imp = ("From Verif Require Import C06.Abi C06.Sexp C06.SxEval C06.VxEval C06.XEval C06.SrcEnc "
+    imp = ("From Verif Require Import C06.Abi C06.Sexp C06.SxEval C06.VxEval C06.XEval C06.SrcEnc C06.SrcHolds "
            "C06.GenTplEncXL C06.GenTplEncXV.\n")
     outs = coqrun.eval_zlists(imp, exprs, "c06tplxrun", shard=SHARD, timeout=900)
     n = 0
@@ -91,7 +92,7 @@ def run_templates(ctx, report):
                    f"encoder spec / disagrees with the structural model SrcEnc.wenc",
                    {"table": table, "shape": A.eth_ty(t), "coq_type": A.coq_ty(t), "values": [repr(v) for v in vals],
                     "results (1 ok, 0 wrong bytes/len/confinement or model mismatch, <0 evaluator; first = spec, "
-                    "then model agreement where applicable)": o}, "tplxrun:" + table)
+                    "then agreement with the model SrcEnc.wenc and the theorem premise holdsb where applicable)": o}, "tplxrun:" + table)
     ctx.corr["x_template_executions_in_coq"] = n
     ctx.corr["x_template_executions_per_table"] = per
     return n
